@@ -13,10 +13,11 @@ MODE = "exhaustive enumeration + hypothesis"
 RULE = (
     "(a) Exhaustive: every word of length L over {E1 = attribute update with a fresh value, E2 = "
     "add a fresh node (new track), E3 = swap predecessors of a fixed pair (nests 2 delete-edge + 2 "
-    "add-edge user actions), [E4 = paint a fresh label (nests add-node), segmentation fixture], U = "
+    "add-edge user actions), [E4 = paint a fresh label (nests add-node), E5 = a reported stroke that "
+    "changes nothing (eraser over background); segmentation fixture], U = "
     "undo, R = redo} is executed on a fresh fixture and checked after every letter, so every word "
-    "of length <= L is covered as a prefix (quick: 5 letters L=7 on the plain fixture, 6 letters L=5 "
-    "on the segmentation fixture; thorough: L=8 / L=7). (b) Sampled: Hypothesis walks with all "
+    "of length <= L is covered as a prefix (quick: 5 letters L=7 on the plain fixture, 7 letters L=5 "
+    "on the segmentation fixture; thorough: L=8 / L=6). (b) Sampled: Hypothesis walks with all "
     "user-action kinds, up to 60 steps, ~45% undo/redo. Oracle = reference timeline (list of "
     "canonical states + cursor): an edit after undos appends the undone stretch reversed, then the "
     "new state; undo/redo move the cursor and return False exactly at the ends, then change "
@@ -81,6 +82,9 @@ def letter_op(world, letter: str, k: int) -> dict:
     if letter == "4":
         return {"op": "paint", "time": 2, "pixels": [[7], [k % 8]], "value": 80 + k, "track_id": 90 + k,
                 "force": False, "order": "asc"}
+    if letter == "5":  # eraser over background: changes nothing, still one step
+        return {"op": "paint", "time": 3, "pixels": [[7], [7]], "value": 0, "track_id": 1,
+                "force": False, "order": "asc", "report_unchanged": True}
     raise AssertionError(letter)
 
 
@@ -120,8 +124,8 @@ def _exhaustive(ctx, name, fixture, alphabet, length):
 
 
 TIERS = {
-    "quick": {"plain": ("123UR", 7), "seg": ("1234UR", 5), "walks": (480, 45)},
-    "thorough": {"plain": ("123UR", 8), "seg": ("1234UR", 7), "walks": (4800, 60)},
+    "quick": {"plain": ("123UR", 7), "seg": ("12345UR", 5), "walks": (480, 45)},
+    "thorough": {"plain": ("123UR", 8), "seg": ("12345UR", 6), "walks": (4800, 60)},
 }
 
 
